@@ -14,7 +14,9 @@ import numpy as np
 logging.disable(logging.CRITICAL)
 
 
-def import_nptdms(repo="/repo"):
+def import_nptdms(repo=None):
+    import os
+    repo = repo or os.environ.get("NPTDMS_REPO", "/repo")     # NPTDMS_REPO: only for self-tests against scratch worktrees
     if repo not in sys.path:
         sys.path.insert(0, repo)
     import nptdms
